@@ -8,7 +8,9 @@ use std::process::{Command, Stdio};
 
 pub mod c03;
 pub mod c04;
+pub mod c06;
 pub mod c07;
+pub mod c10;
 pub mod c13;
 pub mod c14;
 pub mod c15;
@@ -350,8 +352,10 @@ pub fn main() {
             r
         }
         "C04" => c04::run(&opts),
+        "C06" => c06::run(&opts),
         "C08" | "C09" => sync::run(&opts, &opts.property.clone()),
         "C07" => c07::run(&opts),
+        "C10" => c10::run(&opts),
         "C13" => c13::run(&opts),
         "C14" => c14::run(&opts),
         "C15" => c15::run(&opts),
